@@ -171,6 +171,7 @@ func (c *channel) ID() int64 {
 
 // Write a message through the Pipeline
 func (c *channel) Write(message Message) error {
+	verifPoint(c, "m.enter")
 	if !c.IsActive() {
 		select {
 		case <-c.ctx.Done():
@@ -193,21 +194,27 @@ func (c *channel) Trigger(event Event) {
 
 // Close through the Pipeline
 func (c *channel) Close(err error) {
+	verifPoint(c, "c.cas")
 	if atomic.CompareAndSwapInt32(&c.closed, 0, 1) {
 
 		// wait async send finished.
 		if nil != c.writeQueue {
 			var maxWaitNum int
+			verifPoint(c, "c.poll")
 			for (c.untilWrite || maxWaitNum < 10) && atomic.LoadInt32(&c.running) != idle {
 				maxWaitNum++
 				time.Sleep(time.Millisecond * 100)
+				verifPoint(c, "c.poll")
 			}
 		}
 
+		verifPoint(c, "c.seterr")
 		c.closeErr = err
 		c.transport.Close()
+		verifPoint(c, "c.cancel")
 		c.cancel()
 
+		verifPoint(c, "c.inactive")
 		c.invokeMethod(func() {
 			c.pipeline.FireChannelInactive(err)
 		})
@@ -216,6 +223,7 @@ func (c *channel) Close(err error) {
 
 // Writev to write [][]byte for optimize syscall
 func (c *channel) Writev(p [][]byte) (n int64, err error) {
+	verifPoint(c, "w.enter")
 	if nil != c.closeErr {
 		return 0, c.closeErr
 	}
@@ -242,6 +250,7 @@ func (c *channel) Write1(p []byte) (n int, err error) {
 // CtxWrite1 channels with asynchronous write enabled, writes will block until the write is successfully sent to the queue or times out.
 // for synchronous write channels, SetDeadline will be called to ensure that the blocking write operation is interrupted after a timeout.
 func (c *channel) CtxWrite1(ctx context.Context, p []byte) (n int, err error) {
+	verifPoint(c, "w.enter")
 	// enable async write
 	if nil != c.writeQueue {
 		wn, err := c.asyncWrite(ctx, p, true)
@@ -269,6 +278,7 @@ func (c *channel) CtxWrite1(ctx context.Context, p []byte) (n int, err error) {
 // CtxWritev channels with asynchronous write enabled, writes will block until the write is successfully sent to the queue or times out.
 // for synchronous write channels, SetDeadline will be called to ensure that the blocking write operation is interrupted after a timeout.
 func (c *channel) CtxWritev(ctx context.Context, pv [][]byte) (n int64, err error) {
+	verifPoint(c, "w.enter")
 	// enable async write
 	if nil != c.writeQueue {
 		wn, err := c.asyncWritev(ctx, pv)
@@ -338,6 +348,7 @@ func (c *channel) Writer() io.Writer {
 }
 
 func (c *channel) write1(p []byte, clone bool) (n int, err error) {
+	verifPoint(c, "w.enter")
 	if nil != c.closeErr {
 		return 0, c.closeErr
 	}
@@ -375,6 +386,7 @@ func (c *channel) asyncWrite(ctx context.Context, p []byte, clone bool) (int64, 
 	// put packet to send queue
 	var packet = p
 
+	verifPoint(c, "w.select")
 	if c.untilWrite {
 		select {
 		case <-ctx.Done():
@@ -397,6 +409,7 @@ func (c *channel) asyncWrite(ctx context.Context, p []byte, clone bool) (int64, 
 		}
 	}
 
+	verifPoint(c, "w.cas")
 	// try send
 	if atomic.CompareAndSwapInt32(&c.running, idle, running) {
 		c.executor.Exec(c.writeOnce)
@@ -424,6 +437,7 @@ func (c *channel) asyncWritev(ctx context.Context, p [][]byte) (int64, error) {
 	// put packet to send queue
 	var packet = dataBuff[:offset]
 
+	verifPoint(c, "w.select")
 	if c.untilWrite {
 		select {
 		case <-ctx.Done():
@@ -446,6 +460,7 @@ func (c *channel) asyncWritev(ctx context.Context, p [][]byte) (int64, error) {
 		}
 	}
 
+	verifPoint(c, "w.cas")
 	// try send
 	if atomic.CompareAndSwapInt32(&c.running, idle, running) {
 		c.executor.Exec(c.writeOnce)
@@ -532,10 +547,12 @@ func (c *channel) readLoop(done func()) {
 
 	func() {
 		defer done()
+		verifPoint(c, "r.active")
 		c.invokeMethod(c.pipeline.FireChannelActive)
 	}()
 
 	for {
+		verifPoint(c, "r.check")
 		select {
 		case <-c.ctx.Done():
 			return
@@ -552,6 +569,7 @@ func (c *channel) writeOnce() {
 
 	defer func() {
 		if err := recover(); nil != err {
+			verifPoint(c, "s.fail")
 			atomic.StoreInt32(&c.running, idle)
 			c.Close(AsException(err))
 		}
@@ -564,6 +582,7 @@ func (c *channel) writeOnce() {
 
 		// more packet will be merged
 		for len(sendBuffers) < cap(sendBuffers) {
+			verifPoint(c, "s.poll")
 			// poll packet
 			select {
 			case pkt := <-c.writeQueue:
@@ -592,6 +611,7 @@ func (c *channel) writeOnce() {
 				recycleBuffers[index] = nil
 			}
 
+			verifPoint(c, "s.len")
 			// continue to send remain packets
 			if len(c.writeQueue) > 0 {
 				continue
@@ -601,9 +621,12 @@ func (c *channel) writeOnce() {
 		// flush transport buffer
 		utils.Assert(c.transport.Flush())
 
+		verifPoint(c, "s.release")
 		// double check
 		atomic.StoreInt32(&c.running, idle)
+		verifPoint(c, "s.recheck")
 		if size := len(c.writeQueue); size > 0 {
+			verifPoint(c, "s.recas")
 			if atomic.CompareAndSwapInt32(&c.running, idle, running) {
 				continue
 			}
